@@ -17,6 +17,8 @@ macro_rules! dispatch {
     match $id {
       "C01" => $f::<props::c01::C01>($($arg),*),
       "C03" => $f::<props::c03::C03>($($arg),*),
+      "C04" => $f::<props::c04::C04>($($arg),*),
+      "C05" => $f::<props::c05::C05>($($arg),*),
       "C11" => $f::<props::c11::C11>($($arg),*),
       "C12" => $f::<props::c12::C12>($($arg),*),
       "C15" => $f::<props::c15::C15>($($arg),*),
